@@ -134,6 +134,8 @@ pub struct LayerSpec {
 #[derive(Clone, Debug, Default)]
 pub struct Spec {
     pub opts: (char, usize, char),
+    /// what the save target holds beforehand: absent | empty | ufo | ufojunk | partial | junk
+    pub target: String,
     pub creator: Option<String>,
     pub minor: u32,
     pub fi: Option<String>,
@@ -228,6 +230,7 @@ pub fn font_tokens(s: &Spec) -> Vec<String> {
 
 pub fn input_tokens(s: &Spec) -> Vec<String> {
     let mut t = vec![format!("o={}.{}.{}", s.opts.0, s.opts.1, s.opts.2)];
+    t.push(format!("t={}", if s.target.is_empty() { "absent" } else { &s.target }));
     t.extend(font_tokens(s));
     t
 }
@@ -261,6 +264,7 @@ pub fn parse_spec(toks: &[&str]) -> Spec {
     for t in toks {
         let (k, v) = t.split_once('=').unwrap();
         match k {
+            "t" => s.target = v.to_string(),
             "o" => {
                 let p: Vec<&str> = v.split('.').collect();
                 s.opts = (p[0].chars().next().unwrap(), p[1].parse().unwrap(), p[2].chars().next().unwrap());
@@ -722,7 +726,8 @@ pub fn mk_glyph(name: &str, tok: &str) -> Glyph {
     g.width = plain_num(&mut r);
     g.height = if r.chance(1, 3) { plain_num(&mut r) } else { 0.0 };
     if r.chance(1, 2) {
-        g.codepoints = Codepoints::new((0..1 + r.below(2)).map(|_| *r.pick(&['A', '\u{e9}', '\u{1F600}', '\u{0}'])));
+        // several code points, the first (primary) one not necessarily the smallest
+        g.codepoints = Codepoints::new((0..1 + r.below(3)).map(|_| *r.pick(&['A', '\u{e9}', '\u{1F600}', '\u{0}', '\u{2206}', '\u{394}', 'a'])));
     }
     if r.chance(1, 4) {
         // inherited guard (C02): notes are trimmed on load; only notes without blanks at the ends
@@ -835,6 +840,75 @@ pub fn mk_glyph(name: &str, tok: &str) -> Glyph {
 }
 
 // ------------------------------------------------------------------ building and dumping fonts
+
+/// `Glyph == Glyph` compares the code points as a set; the order (the first is the primary value) matters too
+pub fn glyph_eq(a: &Glyph, b: &Glyph) -> bool {
+    a == b && a.codepoints.iter().eq(b.codepoints.iter())
+}
+
+/// a font with every optional part present, used to occupy a save target beforehand
+pub fn rich_font() -> Font {
+    let mut s = Spec::default();
+    s.creator = Some(DEFAULT_CREATOR.to_string());
+    s.fi = Some("4242".to_string());
+    s.nums = vec![("ascender".to_string(), 800f64.to_bits())];
+    s.upm = Some(1000f64.to_bits());
+    s.lib.insert("stale.key".to_string(), Value::String("stale".to_string()));
+    s.groups = vec![("stale.group".to_string(), vec!["stale".to_string()])];
+    s.kerning = vec![("stale".to_string(), vec![("stale".to_string(), 77f64.to_bits())])];
+    s.features = "feature stal { sub stale by stale; } stal;\n".to_string();
+    let mut lib = Dictionary::new();
+    lib.insert("stale.layer".to_string(), Value::Boolean(true));
+    s.layers = vec![
+        LayerSpec { name: "public.default".into(), color: Some([0.5f64.to_bits(); 4]), lib: lib.clone(), glyphs: vec![("stale".into(), "7".into()), ("a".into(), "8".into())] },
+        LayerSpec { name: "stale layer".into(), color: None, lib, glyphs: vec![("stale".into(), "9".into())] },
+        LayerSpec { name: "background".into(), color: None, lib: Dictionary::new(), glyphs: vec![("B".into(), "10".into())] },
+    ];
+    s.data = vec![("stale.txt".to_string(), b"stale".to_vec()), ("sub/stale.bin".to_string(), vec![1, 2, 3])];
+    s.images = vec![("stale.png".to_string(), b"\x89PNG\r\n\x1a\nstale".to_vec())];
+    build(&s)
+}
+
+/// puts the save target into one of the states a caller may find it in (the save must replace all of it)
+pub fn prepare_target(dst: &Path, kind: &str) {
+    rm_rf(dst);
+    let wr = |rel: &str, b: &[u8]| {
+        let p = dst.join(rel);
+        std::fs::create_dir_all(p.parent().unwrap()).unwrap();
+        std::fs::write(p, b).unwrap();
+    };
+    let pl = |body: &str| format!("<?xml version=\"1.0\" encoding=\"UTF-8\"?>\n<plist version=\"1.0\">{}</plist>\n", body);
+    match kind {
+        "empty" => std::fs::create_dir_all(dst).unwrap(),
+        "ufo" | "ufojunk" => {
+            rich_font().save(dst).expect("occupying the target");
+            if kind == "ufojunk" {
+                wr("notes.txt", b"left behind");
+                wr("glyphs/orphan.glif", b"<?xml version=\"1.0\" encoding=\"UTF-8\"?>\n<glyph name=\"orphan\" format=\"2\"></glyph>\n");
+                wr("data/.hidden", b"x");
+            }
+        }
+        // the remains of a UFO without metainfo.plist
+        "partial" => {
+            wr("features.fea", b"feature stal { sub stale by stale; } stal;\n");
+            wr("kerning.plist", pl("<dict><key>stale</key><dict><key>stale</key><integer>77</integer></dict></dict>").as_bytes());
+            wr("groups.plist", pl("<dict><key>stale.group</key><array><string>stale</string></array></dict>").as_bytes());
+            wr("lib.plist", pl("<dict><key>stale.key</key><string>stale</string></dict>").as_bytes());
+            wr("fontinfo.plist", pl("<dict><key>familyName</key><string>Stale</string></dict>").as_bytes());
+            wr("data/stale.txt", b"stale");
+            wr("images/stale.png", b"\x89PNG\r\n\x1a\nstale");
+            wr("glyphs/layerinfo.plist", pl("<dict><key>color</key><string>1,0,0,1</string></dict>").as_bytes());
+            wr("glyphs.old/contents.plist", pl("<dict/>").as_bytes());
+        }
+        // a directory full of something else
+        "junk" => {
+            wr("notes.txt", b"not a font");
+            wr("sub/readme.md", b"# x");
+            wr("features.fea", b"# somebody's scratch file\n");
+        }
+        _ => {}
+    }
+}
 
 pub fn build(s: &Spec) -> Font {
     let mut font = Font::new();
@@ -966,7 +1040,7 @@ pub fn describe_ref(font: &Font, orig: &Spec, reference: &Font) -> Spec {
                 ol.and_then(|o| o.glyphs.iter().find(|(n, _)| n == g.name().as_str())),
                 rl.and_then(|r| r.get_glyph(g.name())),
             ) {
-                (Some((_, tok)), Some(rg)) if g == rg => tok.clone(),
+                (Some((_, tok)), Some(rg)) if glyph_eq(g, rg) => tok.clone(),
                 _ => format!("X{:x}", fnv(format!("{:?}", g).as_bytes())),
             };
             glyphs.push((g.name().to_string(), tok));
@@ -1230,7 +1304,7 @@ pub fn observe(toks: &[&str], scratch: &Path) -> String {
     // the description of the font as built (sorted maps, as the getters show them)
     let built = describe_ref(&font, &spec, &font);
     let dst = scratch.join("c01.ufo");
-    rm_rf(&dst);
+    prepare_target(&dst, &spec.target);
     let opts = options(&spec);
     let mut out = vec![format!("pre={}", paths(&font))];
     let save = match guarded(|| font.save_with_options(&dst, &opts)) {
@@ -1371,6 +1445,15 @@ fn dict_gen(r: &mut Rng, depth: usize) -> Dictionary {
     d
 }
 
+/// groups of names whose default file names coincide before the clash counter is applied
+pub const CLASHES: [&[&str]; 6] = [
+    &["\u{c4}*", "\u{c4}?"],
+    &[".\u{d6}rtchen", "_\u{d6}rtchen"],
+    &["\u{c9}", "\u{e9}_"],
+    &["A*", "A?", "a__"],
+    &["\u{3a9}|x", "\u{3a9}\"x", "\u{3a9}<x"],
+    &["\u{1e9e}", "\u{df}_"],
+];
 const GNAMES: [&str; 10] = ["a", "A", "B", "a_", ".notdef", "A_B.alt", "\u{e9}", "con", "space", "a b"];
 const KNAMES: [&str; 8] = ["A", "B", "public.kern1.O", "public.kern2.O", "a b", "\u{e9}", "V", "public.kern1.X"];
 
@@ -1381,6 +1464,7 @@ pub fn gen_spec(r: &mut Rng, flavour: usize) -> Spec {
         *r.pick(&[1usize, 1, 2, 4, 0, 8]),
         if r.chance(1, 3) { 's' } else { 'd' },
     );
+    s.target = r.pick(&["absent", "absent", "empty", "ufo", "ufojunk", "partial", "junk"]).to_string();
     s.creator = match r.below(5) {
         0 => None,
         1 => Some(r.pick(&["com.other.tool", "R&D <tool> \"x\" 'y' \u{1F600}", " blank ", "&amp;"]).to_string()),
@@ -1491,7 +1575,13 @@ pub fn gen_spec(r: &mut Rng, flavour: usize) -> Spec {
         let name = if i == 0 {
             if r.chance(1, 3) { "fore".to_string() } else { "public.default".to_string() }
         } else {
-            let n = xname(r, &lnames);
+            let n = if r.chance(1, 6) {
+                // layer names whose directories coincide before the clash counter
+                let grp = *r.pick(&CLASHES);
+                grp[i % grp.len()].to_string()
+            } else {
+                xname(r, &lnames)
+            };
             if used.contains(&n) {
                 continue;
             }
@@ -1519,6 +1609,13 @@ pub fn gen_spec(r: &mut Rng, flavour: usize) -> Spec {
         for _ in 0..r.below(5) {
             let seed = if r.chance(1, 5) { 0 } else { 1 + r.next() % 1_000_000 };
             glyphs.insert(xname(r, &GNAMES), format!("{}", seed));
+        }
+        // names that sanitise to one file name (illegal characters, leading period, case) and hold
+        // non-ASCII capitals: the second needs a clash counter, whatever the case folding says
+        if r.chance(1, 4) {
+            for n in *r.pick(&CLASHES) {
+                glyphs.insert(n.to_string(), format!("{}", 1 + r.next() % 1_000_000));
+            }
         }
         s.layers.push(LayerSpec { name, color, lib, glyphs: glyphs.into_iter().collect() });
     }
@@ -1599,6 +1696,12 @@ pub fn gen(tier: &str, seed: u64, out: &mut dyn Write) {
     for i in 0..n {
         let s = gen_spec(&mut rng, i % 40);
         emit(out, &scratch, &s);
+    }
+    // part 3: fonts that start from a load: a foreign tree (non-default glif file names) is loaded, glyphs are
+    // inserted through the API, then save + load; these lines are `C04 edit …` lines (same driver module)
+    let m = if tier == "thorough" { 4_000 } else { 200 };
+    for i in 0..m {
+        crate::c04::emit_tree_case(&mut rng, i, true, out, &scratch);
     }
     rm_rf(&scratch);
 }
